@@ -9,16 +9,18 @@ from absint import Err as VErr, Ok as VOk, Some as VSome, NoneV
 import callgraph
 
 LEVEL_TEXT = (
-    "Static clause check of the connection loop (the per-byte-offset enumeration of faults is NOT decided): R1 a failed "
-    "or ended read executes nothing: handle_frame maps Err and Ok(None) to 'stop' without reaching the handler or a "
-    "write, and Ok(Some(request)) to exactly one handle_request; R2 incomplete is not complete: read_frame returns a "
-    "frame only when decode returned one, propagates decode errors, and maps EOF to a clean end only with an empty "
-    "buffer (shared with C09.R5) — together with C09.R2/R3 (a frame is built only from a completely buffered body) the "
-    "incomplete or invalid request is not executed; R3 isolation by construction: one Client per accepted socket, moved "
-    "into its own task; Client / connection / codec hold no state shared between connections other than Arc<MemcStore> "
-    "and the semaphore; no static mut, no global mutable state besides the thread-name counter; R4 the connection task "
-    "cannot take the process down: process::exit/abort are reachable only from main, and client-triggerable panics are "
-    "C10's obligation. Not decided: behaviour for every cut offset, what other connections observe."
+    'Static clause check of the connection task (the per-byte-offset enumeration of faults is NOT decided): R1 '
+    'evaluated on the public Client::handle, one round per path: a failed read, a clean end of stream and an idle '
+    'timeout end the task without reaching the handler or a write; a decoded request is dispatched exactly once; R2 '
+    'incomplete is not complete: read_frame returns a frame only when decode returned one, propagates decode errors, '
+    'and maps EOF to a clean end only with an empty buffer (shared with C09.R5) — together with C09.R2/R3 (a frame is '
+    'built only from a completely buffered body) the incomplete or invalid request is not executed; R3 isolation by '
+    'construction: one Client per accepted socket, moved into its own task; Client / connection / codec hold no state '
+    'shared between connections other than Arc<MemcStore> and the semaphore; no static mut, no global mutable state '
+    'besides the thread-name counter; R4 the connection task cannot take the process down: process::exit/abort are '
+    "reachable only from main, and client-triggerable panics are C10's obligation; R5 a fault of one accepted "
+    'connection does not end the accept loop: after accept, run() returns only through the two whitelisted setsockopt '
+    'failures. Not decided: behaviour for every cut offset, what other connections observe.'
 )
 ASSUMPTIONS = ["tokio runs each spawned task independently; a panic in a task does not abort the runtime", "C09.R2/R3 and C10.R1 hold (checked by their own rules)"]
 
